@@ -4,7 +4,7 @@
    to the code by the correspondence check of harness/props/c14.py.
    Only statements, `exact`, Print Assumptions. *)
 From Coq Require Import QArith Qabs Qminmax List Bool.
-From PL Require Import Stress.Collective Stress.Histogram Stress.Rebin.
+From PL Require Import Stress.Collective Stress.Histogram Stress.Rebin Stress.RebinND.
 Import ListNotations.
 Open Scope Q_scope.
 
@@ -153,6 +153,21 @@ Theorem rebin_composes_general_refuted :
     hist_eqb (rebin 0 (rebin 0 h (from_breaks E1)) (from_breaks E2)) (rebin 0 h (from_breaks E2)) = false.
 Proof. exact Rebin.rebin_composes_general_refuted. Qed.
 
+(* ---- histograms with several class levels (range/mean, from/to, ...): every level is re-binned to the binning given for it *)
+Theorem rebin_nd_conserves_total (h : histn) (E : list (list Q)) :
+  Forall (fun kv => Forall2 level_ok E (fst kv)) h ->
+  Qsum (map snd (rebin_nd h (map from_breaks E))) == Qsum (map snd h).
+Proof. exact (RebinND.rebin_nd_conserves_total h E). Qed.
+
+Theorem rebin_nd_one_level (h : hist) (t : ivl) :
+  aggregate_nd (map (fun s => ([fst s], snd s)) h) [t] == aggregate 0 h t.
+Proof. exact (RebinND.aggregate_nd_one_level h t). Qed.
+
+Theorem rebin_nd_level_order (h : histn) (t : key) :
+  (2 <= length t)%nat -> Forall (fun kv => (2 <= length (fst kv))%nat) h ->
+  aggregate_nd (map (fun kv => (swap2 (fst kv), snd kv)) h) (swap2 t) == aggregate_nd h t.
+Proof. exact (RebinND.rebin_nd_level_order h t). Qed.
+
 (* ---- combining by sum conserves the grand total *)
 Theorem combine_conserves_total (hs : list (list (key * Q))) :
   Qsum (map snd (combine_sum hs)) == Qsum (map (fun h => Qsum (map snd h)) hs).
@@ -179,4 +194,7 @@ Print Assumptions binning_validation_agrees.
 Print Assumptions rebin_same_binning_identity.
 Print Assumptions rebin_composes_through_refinement.
 Print Assumptions rebin_composes_general_refuted.
+Print Assumptions rebin_nd_conserves_total.
+Print Assumptions rebin_nd_one_level.
+Print Assumptions rebin_nd_level_order.
 Print Assumptions combine_conserves_total.
